@@ -85,11 +85,13 @@ def run(ctx):
     ctx.exhaustive = True
     ctx.note("lattice_vectors", len(vectors))
     ctx.rule = ("TLC: 6 source direction grids x 2-3 frequency grids x target frequency/direction grids x maintain_m0 x spectra over a 2-3 symbol "
-                "alphabet, plus rotations by {30,45,90,120,360}; every state replayed into regrid_spec and the accessor methods. "
+                "alphabet, plus rotations by {30,45,90,120,360}; the states (a seeded sample of 1400 in quick, 40000 in thorough) replayed into regrid_spec and the accessor methods. "
                 "distinct_nontrivial = distinct non-constant (source, target, spectrum) cases.")
-    if ctx.quick and len(vectors) > 1400:
+    cap = 1400 if ctx.quick else 40000          # thorough: TLC still checks every state; a seeded sample of that size is replayed
+    if len(vectors) > cap:
         ctx.rng.shuffle(vectors)
-        vectors = vectors[:1400]
+        vectors = vectors[:cap]
+        ctx.note("replayed_sample", cap)
     for v in vectors:
         F, D, E = v["F"], v["D"], v["E"]
         da = L.build(F, D, E)
@@ -178,9 +180,9 @@ def run(ctx):
                               "non-negative)" % a, {"F": v["F"], "D": D2, "E": E2, "hs": [float(da.spec.hs()), float(out.spec.hs())], "min": float(out.min())})
     # ---- "returns exactly the requested coordinates": targets that are ALMOST the source grid (float32 copies of the frequencies,
     # directions shifted by 2e-5 degrees) are still targets of their own
-    for v in some[: (12 if ctx.quick else 120)]:
+    for v in [x for x in some if 0 in x["D"]][: (8 if ctx.quick else 80)] + some[: (12 if ctx.quick else 120)]:
         da = L.build(v["F"], v["D"], v["E"])
-        if float(da.sum()) == 0 or len(v["F"]) < 2:
+        if float(da.sum()) == 0:
             continue
         f32 = da.freq.values.astype("float32")
         dsh = (da.dir.values + 2e-5) % 360.0
@@ -192,6 +194,8 @@ def run(ctx):
                                ("freq as float32", dict(freq=f32), ("freq", f32.astype("float64"))),
                                ("freq as float32 DataArray", dict(freq=xr.DataArray(f32, dims="freq")), ("freq", f32.astype("float64"))),
                                ("dir shifted by 2e-5", dict(dir=dsh), ("dir", dsh))):
+            if what.startswith("freq") and len(v["F"]) < 2:
+                continue
             ctx.case(("near-identity", what, tuple(v["F"]), tuple(v["D"]), tuple(x for r in v["E"] for x in r)), True)
             try:
                 out = da.spec.interp(**kw)
